@@ -1,4 +1,5 @@
-import PfVerif.Proofs.C06Fuel
+import PfVerif.Proofs.C06Min
+import PfVerif.Proofs.C06DepthEq
 import PfVerif.Generated.Tables
 /-! # C06 — depression filling yields the minimal spill surface draining all cells
 
@@ -321,24 +322,40 @@ theorem fillModel_sound {pits : Option (List Nat)} {minMode : Bool} {fin : Bool}
   · exact ⟨never_uphill_cert hcert c hc, filled_ge_cert hcert c hc,
       fun hn => nodata_untouched_cert hcert c hc hn⟩
 
-/-- **filling an already filled surface changes no elevation — for the model** (outlets `edge` or
-user cells; with `min` the statement is `idempotent_cert` plus the harness check that the lowest
-edge cell of the filled surface is the same cell) -/
-theorem fillModel_idempotent {pits : Option (List Nat)} {f2 : Array Int} {d82 : Array Nat}
-    {fin fin2 : Bool} (hN : nod.size = G.n) (hE : elev.size = G.n)
+/-- **filling an already filled surface changes no elevation — for the model**, all three outlet
+modes (for `min`: the lowest edge cell of the filled surface is the same cell, `seedsOf_min_stable`) -/
+theorem fillModel_idempotent {pits : Option (List Nat)} {minMode : Bool} {f2 : Array Int}
+    {d82 : Array Nat} {fin fin2 : Bool} (hN : nod.size = G.n) (hE : elev.size = G.n)
     (hpits : ∀ l, pits = some l → ∀ p, p ∈ l → p < G.n → nod[p]! = false)
-    (h1 : fillModel G conn elev nod pits false = some (f, d8, fin))
-    (h2 : fillModel G conn f nod pits false = some (f2, d82, fin2)) (c : Nat) (hc : c < G.n) :
+    (h1 : fillModel G conn elev nod pits minMode = some (f, d8, fin))
+    (h2 : fillModel G conn f nod pits minMode = some (f2, d82, fin2)) (c : Nat) (hc : c < G.n) :
     f2[c]! = f[c]! := by
   obtain ⟨_, s, _, _, _, I, hf, _, _⟩ := fillModel_inv hN hE hpits h1
   have hF : f.size = G.n := by rw [hf]; exact I.sized.2.2.1
   obtain ⟨seed1, rk1, hs1, c1⟩ := fill_model_cert hN hE hpits h1
   obtain ⟨seed2, rk2, hs2, c2⟩ := fill_model_cert hN hF hpits h2
   have : seed1 = seed2 := by
-    simp only [seedsOf, Bool.false_eq_true, if_false, Option.some.injEq] at hs1 hs2
-    rw [← hs1, ← hs2]
+    cases minMode with
+    | false =>
+      simp only [seedsOf, Bool.false_eq_true, if_false, Option.some.injEq] at hs1 hs2
+      rw [← hs1, ← hs2]
+    | true =>
+      have hst := seedsOf_min_stable (e2 := f) hs1 (fun c hc _ => filled_ge_cert c1 c hc)
+        (fun c hc hs => cert_L2 (fillCertOk_iff.1 c1) ⟨hc, hs⟩)
+      rw [hst] at hs2
+      injection hs2
   subst this
   exact idempotent_cert c1 c2 c hc
+
+/-- the outlet chosen by `outlets='min'` does not move when the surface is filled -/
+theorem min_outlet_stable {pits : Option (List Nat)} {fin : Bool} (hN : nod.size = G.n)
+    (hE : elev.size = G.n) (hpits : ∀ l, pits = some l → ∀ p, p ∈ l → p < G.n → nod[p]! = false)
+    (h1 : fillModel G conn elev nod pits true = some (f, d8, fin)) :
+    seedsOf G conn f nod pits true = seedsOf G conn elev nod pits true := by
+  obtain ⟨seed1, rk1, hs1, c1⟩ := fill_model_cert hN hE hpits h1
+  rw [hs1]
+  exact seedsOf_min_stable (e2 := f) hs1 (fun c hc _ => filled_ge_cert c1 c hc)
+    (fun c hc hs => cert_L2 (fillCertOk_iff.1 c1) ⟨hc, hs⟩)
 
 /-- nodata untouched, never below the input — for the model, without even the `fin` hypothesis -/
 theorem fillModel_nodata_ge {pits : Option (List Nat)} {minMode : Bool} {fin : Bool}
@@ -346,6 +363,141 @@ theorem fillModel_nodata_ge {pits : Option (List Nat)} {minMode : Bool} {fin : B
     (hc : c < G.n) :
     (nod[c]! = true → f[c]! = elev[c]! ∧ d8[c]! = 247) ∧ elev[c]! ≤ f[c]! :=
   fillModel_safe hn h c hc
+
+/-! ### `elv_max`: outlets only at edge cells at or below `elv_max` (model `fillModelE`) -/
+
+/-- the restricted initial outlets are exactly the edge cells with elevation `≤ elv_max` -/
+theorem edgeBelow_edge (m : Int) (c : Nat) (hc : c < G.n) :
+    (edgeBelow G conn elev nod m)[c]! = true ↔ (IsEdge G conn nod c ∧ elev[c]! ≤ m) :=
+  edgeBelow_spec m c hc
+
+/-- the model raises `ValueError` (returns `none` for the initial outlets) exactly when `idxs_pit` is
+absent, `elv_max` is given and no edge cell lies at or below it -/
+theorem elvMax_valueError_iff {pits : Option (List Nat)} {elvMax : Option Int} :
+    seeds0E G conn elev nod pits elvMax = none ↔
+      ∃ m, pits = none ∧ elvMax = some m ∧ ¬ ∃ c, c < G.n ∧ IsEdge G conn nod c ∧ elev[c]! ≤ m :=
+  seeds0E_none
+
+/-- **all clauses of the property hold with `elv_max` too**: the model's run from the restricted
+outlets ends with an empty heap and its output is accepted by the certificate for that outlet set
+(so `fillCert_sound`, `never_uphill_cert`, ... apply with `seed` = the restricted set) -/
+theorem fillModelE_cert {pits : Option (List Nat)} {minMode : Bool} {elvMax : Option Int} {fin : Bool}
+    (hN : nod.size = G.n) (hE : elev.size = G.n)
+    (hpits : ∀ l, pits = some l → ∀ p, p ∈ l → p < G.n → nod[p]! = false)
+    (h : fillModelE G conn elev nod pits minMode elvMax = .ok (f, d8, fin)) :
+    fin = true ∧ ∃ seed rk, seedsOfE G conn elev nod pits minMode elvMax = .ok seed ∧
+      fillCertOk G conn elev nod seed f d8 rk = true := by
+  obtain ⟨h1, seed, rk, h2, h3⟩ := fillModelE_cert_aux hN hE hpits h
+  exact ⟨h1, seed, rk, h2, fillCertOk_iff.2 h3⟩
+
+/-- without `elv_max` the extended model is `fillModel` -/
+theorem fillModelE_no_elvMax (pits : Option (List Nat)) (minMode : Bool) :
+    fillModelE G conn elev nod pits minMode none =
+      match fillModel G conn elev nod pits minMode with
+      | none => .error .indexError
+      | some r => .ok r :=
+  fillModelE_none pits minMode
+
+/-! ### `max_depth >= 0` (model `fillModelDepth`, loop for loop as of /repo 463c4a4)
+
+Proved for all inputs: the invariants (`fillDepth_invariants`, `fillModelDepth_safe`), the measure
+(`fillDepth_measure`), termination given a bound on the number of too-deep events
+(`fillModelDepth_terminates_of_events`), coincidence with the unlimited fill when no depression
+reaches `max_depth` (`fillModelDepth_eq_unlimited`).
+
+NOT proved (the one missing lemma for unconditional termination):
+
+    theorem too_deep_once : every cell has at most one too-deep event in a run
+      (fillModelDepth ... = .ok (f, d8, fin, ev, evc) → ∀ c, evc[c]! ≤ 1, hence ev ≤ n)
+
+It holds in every explored case (the driver reports `model.evmax`; exhaustive 3x3 over 3 levels and
+1-D profiles; > 10^5 random rasters) and together with `fillModelDepth_terminates_of_events` gives
+`fin = true` within `fuelD = 12 n + 1` pops. Why it is hard: pop levels are no longer monotone (a
+too-deep cell is pushed below the current level), cells are re-opened, popped and pushed several
+times; the argument needs "a too-deep event only hits a cell that was never done before". -/
+
+/-- **the measure of the depth-limited loop**: `potD` = heap size + number of cells that are not
+done. Every iteration of `while len(q) > 0` lowers it by at least one, except that each too-deep
+event may add up to 10 (one push, at most nine re-opened cells). Hence, as long as the heap is not
+empty after `fuel` iterations, `fuel + potD ≤ potD₀ + 10 · (too-deep events so far)`; the number of
+events never decreases. -/
+theorem fillDepth_measure {md : Int} (fuel : Nat) (s : StD) (hs : SizedD G s) :
+    s.ev ≤ (fillLoopD G conn elev nod md fuel s).ev ∧
+    ((fillLoopD G conn elev nod md fuel s).q ≠ [] →
+      fuel + potD G (fillLoopD G conn elev nod md fuel s) + 10 * s.ev ≤
+        potD G s + 10 * (fillLoopD G conn elev nod md fuel s).ev) :=
+  potD_loop fuel s hs
+
+/-- **termination of `fill_depressions(max_depth >= 0)` given at most `n` too-deep events**: then the
+loop ends with an empty heap within `12 n + 1` pops (the initial potential is at most `2 n`) -/
+theorem fillModelDepth_terminates_of_events {pits : Option (List Nat)} {minMode : Bool}
+    {elvMax : Option Int} {md : Int} {fin : Bool} {ev : Nat} {evc : Array Nat}
+    (hN : nod.size = G.n) (hE : elev.size = G.n)
+    (h : fillModelDepth G conn elev nod pits minMode elvMax md = .ok (f, d8, fin, ev, evc))
+    (hev : ev ≤ G.n) : fin = true :=
+  fillModelDepth_fin_of_events hN hE h hev
+
+/-- **invariants of every state of every depth-limited run** (after any number of pops): nodata cells
+are never pushed (no heap entry is a nodata cell), never queued, never re-opened, keep their elevation
+and the code 247; valid cells are never coded 247, never lowered, never raised by `md` or more -/
+theorem fillDepth_invariants {md : Int} {seed : Array Bool} (fuel : Nat) (hN : nod.size = G.n)
+    (hE : elev.size = G.n) (hS : seed.size = G.n)
+    (hSV : ∀ c : Nat, c < G.n → seed[c]! = true → nod[c]! = false) :
+    SafeD G elev nod md (fillLoopD G conn elev nod md fuel (initStateD G elev nod seed)) :=
+  safeD_loop fuel _ (sizedD_init hN hE hS) (safeD_init hN hSV)
+
+/-- the same for the returned rasters: nodata untouched and coded 247, valid cells never 247,
+`elev ≤ f`, and `f = elev` or `f - elev < max_depth` (cells of depressions deeper than `max_depth`
+are not raised to the pour point; with `max_depth = 0` nothing is raised) -/
+theorem fillModelDepth_invariants {pits : Option (List Nat)} {minMode : Bool} {elvMax : Option Int}
+    {md : Int} {fin : Bool} {ev : Nat} {evc : Array Nat}
+    (hN : nod.size = G.n) (hE : elev.size = G.n)
+    (hpits : ∀ l, pits = some l → ∀ p, p ∈ l → p < G.n → nod[p]! = false)
+    (h : fillModelDepth G conn elev nod pits minMode elvMax md = .ok (f, d8, fin, ev, evc))
+    (c : Nat) (hc : c < G.n) :
+    (nod[c]! = true → f[c]! = elev[c]! ∧ d8[c]! = 247) ∧ (nod[c]! = false → d8[c]! ≠ 247) ∧
+    elev[c]! ≤ f[c]! ∧ (f[c]! = elev[c]! ∨ f[c]! - elev[c]! < md) :=
+  fillModelDepth_safe hN hE hpits h c hc
+
+/-- **no depression as deep as `max_depth` ⇒ the unlimited result**: if the unlimited fill raises no
+cell by `md` or more, `fillModelDepth` returns exactly the unlimited output, terminates, and sees no
+too-deep event -/
+theorem fillModelDepth_eq_unlimited {pits : Option (List Nat)} {minMode : Bool} {elvMax : Option Int}
+    {md : Int} {f0 : Array Int} {d80 : Array Nat} {fin0 : Bool}
+    (hN : nod.size = G.n) (hE : elev.size = G.n)
+    (hpits : ∀ l, pits = some l → ∀ p, p ∈ l → p < G.n → nod[p]! = false)
+    (h0 : fillModelE G conn elev nod pits minMode elvMax = .ok (f0, d80, fin0))
+    (hdepth : ∀ c, c < G.n → f0[c]! - elev[c]! < md) :
+    fillModelDepth G conn elev nod pits minMode elvMax md =
+      .ok (f0, d80, true, 0, Array.replicate G.n 0) :=
+  fillModelDepth_eq_unlimited_aux hN hE hpits h0 hdepth
+
+-- non-vacuity: the regression raster of /repo 463c4a4 (nodata at cell 6 next to the depression at
+-- cell 7, single outlet 0, max_depth 1): cell 7 is too deep once, stays at its elevation and becomes
+-- a pit (code 0); the nodata cell keeps 247; with max_depth 10 the result is the unlimited fill
+example : (match fillModelDepth ⟨3, 5⟩ 8 #[0, 5, 5, 5, 5, 5, 0, 1, 5, 5, 5, 5, 5, 5, 5]
+      #[false, false, false, false, false, false, true, false, false, false, false, false, false, false, false]
+      none true none 1 with
+    | .ok (f, d8, fin, ev, evc) => (f.toList, d8.toList, fin, ev, evc.toList)
+    | .error _ => ([], [], false, 0, [])) =
+    ([0, 5, 5, 5, 5, 5, 0, 1, 5, 5, 5, 5, 5, 5, 5],
+     [0, 2, 4, 8, 16, 64, 247, 0, 16, 32, 64, 128, 64, 32, 32], true, 1,
+     [0, 0, 0, 0, 0, 0, 0, 1, 0, 0, 0, 0, 0, 0, 0]) := by decide +kernel
+example : (match fillModelDepth ⟨3, 5⟩ 8 #[0, 5, 5, 5, 5, 5, 0, 1, 5, 5, 5, 5, 5, 5, 5]
+      #[false, false, false, false, false, false, true, false, false, false, false, false, false, false, false]
+      none true none 10 with
+    | .ok (f, d8, fin, ev, _) => (f.toList, d8.toList, fin, ev)
+    | .error _ => ([], [], false, 0)) =
+    ([0, 5, 5, 5, 5, 5, 0, 5, 5, 5, 5, 5, 5, 5, 5],
+     [0, 16, 16, 16, 16, 64, 247, 32, 32, 32, 64, 32, 64, 32, 32], true, 0) := by decide +kernel
+-- elv_max = 3 keeps only the notch (cell 3) as outlet; elv_max = 2 leaves none: ValueError
+example : (match fillModelE ⟨3, 3⟩ 8 #[5, 4, 5, 3, 1, 5, 5, 5, 5] (Array.replicate 9 false) none false (some 3) with
+    | .ok (f, d8, fin) => (f.toList, d8.toList, fin)
+    | .error _ => ([], [], false)) =
+    ([5, 4, 5, 3, 3, 5, 5, 5, 5], [4, 8, 8, 0, 16, 16, 64, 32, 32], true) := by decide +kernel
+example : (match fillModelE ⟨3, 3⟩ 8 #[5, 4, 5, 3, 1, 5, 5, 5, 5] (Array.replicate 9 false) none false (some 2) with
+    | .ok _ => false
+    | .error e => decide (e = .valueError)) = true := by decide +kernel
 
 /-! ### ties to the code tables regenerated from /repo -/
 
